@@ -432,10 +432,10 @@ def r4_packet(program, folder, rep):
 def check(program, rep):
     program.module(MOD)
     folder = Folder(program)
-    r1_effects(program, rep)
-    r2_sequence(program, folder, rep)
-    r3_splice(program, folder, rep)
-    r4_packet(program, folder, rep)
+    rep.guard("C20-R1", r1_effects, program, rep)
+    rep.guard("C20-R2", r2_sequence, program, folder, rep)
+    rep.guard("C20-R3", r3_splice, program, folder, rep)
+    rep.guard("C20-R4", r4_packet, program, folder, rep)
     return finish(rep, program, EXPLANATION, NOT_DECIDED,
                   trusted=["effects.py transfer functions",
                            "floor-division axioms in dataflow.axioms"])
